@@ -524,7 +524,9 @@ class Engine:
                 raise Unsupported(f"{fr.qual}: missing kw argument {p.arg}")
         if kwargs:
             raise Unsupported(f"{fr.qual}: unexpected kwargs {list(kwargs)}")
-        if len(args) > len(params):
+        if a.vararg is not None:
+            fr.locals[a.vararg.arg] = VTuple(list(args[len(params):]))
+        elif len(args) > len(params):
             raise Unsupported(f"{fr.qual}: too many args")
 
     def run_body(self, ctx, fr, fn, args, kwargs):
@@ -563,7 +565,13 @@ class Engine:
                 return VCoro(qual, run)
             fr = Frame(mod, qual, cls_qual)
             return self.run_body(ctx, fr, fn, args, kwargs)
-        raise Unsupported(f"call to {qual} (from {self.current_top}): no contract and not declared inline")
+        # neither contract nor inline declaration: inline on demand (helpers that appear in changed code); recorded as such
+        mod, cls, fn = self.repo.find(qual)
+        if fn is None or isinstance(fn, ast.AsyncFunctionDef) or any((d.id if isinstance(d, ast.Name) else getattr(d, "attr", "")) == "contextmanager" for d in fn.decorator_list):
+            raise Unsupported(f"call to {qual} (from {self.current_top}): no contract and not declared inline")
+        self.use_assumption(f"INLINED-ON-DEMAND: {qual} has no contract; its body was executed at the call site")
+        cls_qual = f"{mod.name}:{cls.name}" if cls is not None else None
+        return self.run_body(ctx, Frame(mod, qual, cls_qual), fn, args, kwargs)
 
     def normalise_args(self, qual, args, kwargs, ctx):
         """Positional list of the callee's parameters (fills defaults, folds kwargs)."""
@@ -885,12 +893,19 @@ class Engine:
         enter = self.models.get(("with", getattr(cm, "cls", None) or getattr(cm, "dotted", None) or cm.kind))
         if enter is None:
             raise Unsupported(f"with on {cm!r} line {s.lineno}")
-        val, exit_fn = enter(ctx, cm)
+        entered = enter(ctx, cm)
+        val, exit_fn = entered[0], entered[1]
+        suppresses = entered[2] if len(entered) > 2 else None     # fn(ctx, exc) -> bool: __exit__ swallows the exception
         if item.optional_vars is not None:
             self.assign(ctx, fr, item.optional_vars, val)
         try:
             self.exec_block(ctx, fr, s.body)
-        except (PyRaise, ReturnSig, BreakSig, ContinueSig, WithSignal):
+        except PyRaise as e:
+            exit_fn(ctx)
+            if suppresses is not None and suppresses(ctx, e.exc):
+                return
+            raise
+        except (ReturnSig, BreakSig, ContinueSig, WithSignal):
             exit_fn(ctx)
             raise
         else:
@@ -1243,6 +1258,9 @@ class Engine:
             if attr in m.classes:
                 return VClass(f"{modname}:{attr}")
             if attr in m.assigns:
+                ov = getattr(self, "constant_overrides", {}).get((modname, attr))
+                if ov is not None:
+                    return ov       # a module constant generalised to a symbolic value by the contracts (stated there)
                 return self.resolve_global(Ctx(self, [], "module-constant"), m, attr)
             if attr in m.imports:
                 m2, a2 = m.imports[attr]
@@ -1388,6 +1406,10 @@ class Engine:
                     return self.eval(ctx, Frame(mod, q), n.value)
                 if isinstance(n, ast.AnnAssign) and isinstance(n.target, ast.Name) and n.target.id == attr and n.value is not None:
                     return self.eval(ctx, Frame(mod, q), n.value)
+        if obj is not None and not ctx.heap.get(obj.oid, {}).get("__constructed__"):
+            # the object was assembled by a contract's make_args, not by the class's own __init__: a field the
+            # contract did not provide is a gap in the contract, not an AttributeError of the program
+            raise Unsupported(f"attribute {attr} of the symbolic {clsqual.split(':')[1]} object is not provided by the contract (line {getattr(node, 'lineno', '?')})")
         raise PyRaise(VExc("AttributeError", VStr(f"no attribute {attr}"), origin=f"{clsqual}.{attr}@{getattr(node, 'lineno', '?')}"))
 
     def inline_call(self, ctx, qual, args, kwargs):
@@ -1465,12 +1487,12 @@ class Engine:
                     raise PyRaise(VExc("TypeError", VStr(f"missing argument {fname}"), origin=qual))
             if kw:
                 raise PyRaise(VExc("TypeError", VStr("unexpected keyword"), origin=qual))
-            obj = ctx.alloc(qual, vals)
+            obj = ctx.alloc(qual, dict(vals, __constructed__=True))
             if self.find_method(qual, "__post_init__") is not None:
                 q = self.find_method(qual, "__post_init__")[0]
                 self.call_repo(ctx, f"{q}.__post_init__", [obj], {})
             return obj
-        obj = ctx.alloc(qual, {})
+        obj = ctx.alloc(qual, {"__constructed__": True})
         init = self.find_method(qual, "__init__")
         if init is not None:
             self.call_repo(ctx, f"{init[0]}.__init__", [obj] + list(args), kwargs)
